@@ -4,7 +4,7 @@ from __future__ import annotations
 from typing import Any, Dict, List
 
 from ..sim.gen import profile
-from .simprop import (DRAIN, SimEngine, blocked_spawners_family, close_overlap_family, flush_raises_family, name_reuse_family, rejected_then_cancel_family, overlap_family, sweep_space,
+from .simprop import (DRAIN, SimEngine, blocked_spawners_family, close_overlap_family, flush_raises_family, name_reuse_family, rejected_then_cancel_family, thousand_tasks_family, overlap_family, sweep_space,
                       two_pools_family, worker_in_flush_family)
 
 FIN = [1, 1, 2, 2, 3, 4, 0, None]
@@ -345,7 +345,7 @@ _BSS = ("blocked-spawners family on SimpleTaskPool followed by stop(1), stop(2)"
                                                    {"op": "settle"}], classes=("SimpleTaskPool",)))
 _FX = ("flush-raises family (flush() raising over a failed task while a cancelled one sits in its callback, ids probed afterwards)", lambda t: flush_raises_family(_thin(t, 3)))
 _RC = ("rejected-then-cancel family (a request rejected for each cause while a spawner waits, then the group cancelled or not)", lambda t: rejected_then_cancel_family(_thin(t, 2)))
-FAMILIES = {"C09": [_RC], "C02": [_BS], "C03": [_TP, _FX], "C04": [_NR, _BS], "C06": [_WF, _TP, _FR, _FX], "C13": [_FX], "C07": [_NR, _WF], "C10": [_NR], "C11": [_BS, _TP], "C14": [_BSS]}
+FAMILIES = {"C09": [_RC], "C02": [_BS], "C03": [_TP, _FX], "C04": [_NR, _BS], "C06": [_WF, _TP, _FR, _FX], "C13": [_FX], "C07": [_NR, _WF], "C10": [_NR], "C11": [_BS, _TP, ("thousand-tasks family (ids with four digits in task names, groups, callbacks)", lambda t: thousand_tasks_family())], "C14": [_BSS]}
 
 
 def make(pid: str) -> SimEngine:
